@@ -151,7 +151,7 @@ var propC13 = &modelProp{
 			MinIndexed: 2, MaxIndexed: 5, MaxUnique: 0, CasePaths: 0,
 			ConsPaths: []string{"I64", "I8", "U8", "U64", "F64", "S", "T", "In.N", "Pt.S", "Emb.EN", "F32"},
 			TinyBias:  75, BigBias: 10, HookBias: 0, RichShape: 0, MaxLeaves: 3,
-			LimitPct: 70, IndexedLastPct: 85, AndOnlyPct: 80,
+			LimitPct: 70, IndexedLastPct: 85, AndOnlyPct: 80, SeedBatch: 10,
 		}
 	},
 	opts: RunOpts{SweepLevel: 1, SweepEveryOp: false, Control: true},
